@@ -150,16 +150,19 @@ def s_to_model_proto(ctx):
 
 
 def s_get_called_functions(ctx):
-    """transitive closure over node.meta['callee'] (OnnxFunction callees only), each function once, keyed by name"""
+    """transitive closure over node.meta['callee'] (OnnxFunction callees only): every reachable function exactly once — also two functions
+    that share a name in different domains"""
     import onnx_ir as ir
     from onnxscript._internal import irbuilder, values
     I = Interp(ctx)
     # call graph over 3 functions f0..f2 chosen arbitrarily (including cycles and self-calls), plus non-function callees
     fns = []
-    for i in range(3):
+    # F0 and F2 share their NAME but live in different domains (two opsets may both define an op called F)
+    for i, (dom, nm) in enumerate((("dom.zero", "F"), ("dom.one", "G"), ("dom.two", "F"))):
         o = SObj(values.OnnxFunction, f"F{i}")
-        o.fields["name"] = f"F{i}"
-        o.fields["_name"] = f"F{i}"
+        ops = SObj(values.Opset, f"opset{i}")
+        ops.fields.update(domain=dom, version=1)
+        o.fields.update(name=nm, _name=nm, opset=ops, _opset=ops, domain=dom)
         fns.append(o)
     edges = {}
     for src in ["main", 0, 1, 2]:
@@ -198,8 +201,9 @@ def s_get_called_functions(ctx):
         if j not in reach:
             reach.add(j)
             todo.extend(edges[j])
+    got = list(r.values()) if isinstance(r, dict) else []
     ctx.check("C02.get_called_functions.is_the_transitive_closure_of_the_call_graph",
-              isinstance(r, dict) and set(r) == {f"F{j}" for j in reach} and all(r[f"F{j}"] is fns[j] for j in reach),
+              isinstance(r, dict) and len(got) == len(reach) and all(any(g is fns[j] for g in got) for j in reach),
               "C02: 'every name used is defined' — a model must carry every function it (transitively) calls")
 
 
